@@ -73,7 +73,31 @@ func genC13(r *simrt.Rand, tier string) json.RawMessage {
 		}
 	}
 	k := r.Range(2, 5)
-	c.Profile = []string{"many-writers", "one-writer-many-readers", "one-writer-many-readers", "many-inserters"}[r.Intn(4)]
+	c.Profile = []string{"many-writers", "one-writer-many-readers", "one-writer-many-readers", "many-inserters", "churn-near-empty"}[r.Intn(5)]
+	if c.Profile == "churn-near-empty" {
+		// two or three writers on two or three ids, the index starts with one item: it drops to
+		// zero items and comes back all the time (the last item removed while another is inserted)
+		nIds = r.Range(2, 3)
+		c.Pre = []COp{mkIns(0)}
+		k = r.Range(2, 3)
+		for w := 0; w < k; w++ {
+			var ops []COp
+			for i, n := 0, r.Range(2, 6); i < n; i++ {
+				id := r.Intn(nIds)
+				if r.Bool(0.5) {
+					ops = append(ops, mkIns(id))
+				} else {
+					ops = append(ops, COp{K: "rem", Id: id})
+				}
+			}
+			c.Workers = append(c.Workers, ops)
+		}
+		for i := 0; i < 2; i++ {
+			c.Final = append(c.Final, COp{K: "search", Vec: genVec(r, cfg.Dim, false, false), N: 3})
+		}
+		b, _ := json.Marshal(c)
+		return b
+	}
 	for w := 0; w < k; w++ {
 		n := r.Range(2, 10)
 		var ops []COp
